@@ -152,6 +152,8 @@ def main():
     chk.unit('src/engine/engine_util_misc.c', 'mju_fillInt', {'mju_fillInt': sleep.FILL_INT}, 'math', 'opaque')
     for fn in ('mj_wake', 'mj_wakeCollision', 'mj_wakeTendon', 'mj_wakeEquality'):
         chk.unit(F, fn, W, 'math', 'fp', extra_flags=FLAGS)
+    # mj_sleep, prefix: the countdown sweep over awake trees (which islands are then put to sleep is not under contract)
+    chk.unit(F, 'mj_sleep', sleep.sleep_prefix_contracts(), 'math', 'fp', prefix='[prefix]', extra_flags=FLAGS)
     # the sleep filter of the collision driver (explicit pairs between two bodies that are not awake are dropped): contract shared with C14
     from contracts import filters
     chk.unit('src/engine/engine_collision_driver.c', 'filterCollisionPair', filters.pair_contracts(), 'math', 'real', prefix='[collision]', check_arith=False)
@@ -177,7 +179,7 @@ def main():
         'a file-local static scalar that the translation unit only reads (kAwake) keeps its initialiser: established by a syntactic scan of every function of the unit (vlib/cast.py)',
     }
     chk.out_of_reach += ['"sleeping trees keep bit-identical qpos across steps" and "enabling sleep changes no result while no tree is asleep": whole-pipeline relational claims',
-                         'mj_sleep (which islands are put to sleep) and the body-pair sleep filter of the broad phase (filterBodyPair is under contract in C14; its call sites are not): not under contract',
+                         'mj_sleep after its countdown sweep (which islands are put to sleep: needs the island maps as permutations) and the body-pair sleep filter of the broad phase (filterBodyPair is under contract in C14; its call sites are not): not under contract',
                          'wake sweeps: that two sleeping trees joined by a newly active equality wake when in different cycles, and that the sweeps wake nothing else than listed, are not stated (weak view of mj_wakeIsland: no cycle description)',
                          'completeness of the index lists of mj_updateSleepInit (every selected body / dof appears): needs an existential witness per element; soundness, order and bounds are proved',
                          'mj_sleepCycle returning the MINIMUM of the cycle (proved: a member of the cycle not above i; the bounded stand-in checks the minimum)']
